@@ -101,7 +101,8 @@ CHECKS = {
              "Tied to /repo by running the whole crash matrix (panic origin x topology x met/unmet x owning-scope / unwinding-drop / caught) on the real crate; a double panic aborts "
              "the harness process and is observed as a crash. The abort-on-double-panic rule itself is Rust runtime behaviour (modelled, not proved). "
              "Topologies include mocks built by cleanup code during unwinding, no_verify_in_drop originals, and a value chain holding a value whose Drop makes a failing (swallowed) call while the thread unwinds. "
-             "Message part: producing the message must not panic either - every error kind with 600-700 byte ASCII / non-ASCII argument renderings and pattern texts; an abort is seen as a crashed case.",
+             "Message part: producing the message must not panic either - every error kind with 600-700 byte ASCII / non-ASCII argument renderings and pattern texts; an abort is seen as a crashed case. "
+             "User code that panics inside an argument's Debug impl while the runtime renders the call for a mock error is modelled and proved to be the only panic, recording nothing (six error kinds in the matrix).",
         design_ref="DESIGN.md section 7, C11",
         technique="Coq proof (unwinding => silent drop, for all states) + exhaustive crash-matrix co-execution"),
     "C10": dict(
@@ -131,7 +132,8 @@ CHECKS = {
              "and the live-value count after every step of generated make_ref/make_mut sequences (three value types incl. a zero-sized guard) on original and clones, and by threads lending "
              "through one instance under the controlled scheduler (all interleavings for small programs). Memory safety itself is delegated to forbid(unsafe_code) (checked textually). "
              "Sessions also lend through the instance's delegation helper, call `&mut self` provided methods (AsMut path) and drop instances while their thread unwinds. "
-             "Sessions may end in a provided method with a by-value receiver whose required call observes the number of live lent values while the body runs.",
+             "Sessions may end in a provided method with a by-value receiver whose required call observes the number of live lent values while the body runs. "
+             "make_mut is also reached through mocked `&mut self` methods with `&mut T` / `Option<&mut T>` results (proved equal to make_mut on the instance's own chain).",
         design_ref="DESIGN.md section 7, C13",
         technique="Coq proof (append-only chain laws; invariants over all schedules) + sequence and scheduler-controlled co-execution with drop counters"),
     "C20": dict(
